@@ -164,6 +164,31 @@ func c05Verify1(m *stun.Message, raw []byte, corrupted bool) (outcome, key, deta
 			return "", "clone-verdict-differs", fmt.Sprintf("%s: Fingerprint.Check on the clone = %v, on the message %v (RFC verdict %v): %x", how, cerr2, err, want, clip(raw))
 		}
 	}
+	// a ForEach whose callback fails (at every attribute type the message has, at the last visit) leaves the message as
+	// it was: the check gives the same verdict afterwards
+	seen := map[stun.AttrType]bool{}
+	for _, a := range append(stun.Attributes(nil), m.Attributes...) {
+		if seen[a.Type] {
+			continue
+		}
+		seen[a.Type] = true
+		n, visits := 0, 0
+		for _, b := range m.Attributes {
+			if b.Type == a.Type {
+				n++
+			}
+		}
+		_ = m.ForEach(a.Type, func(*stun.Message) error {
+			visits++
+			if visits == n {
+				return errC02Stop
+			}
+			return nil
+		})
+		if err3 := stun.Fingerprint.Check(m); (err3 == nil) != want {
+			return "", "verdict-changes-after-failing-foreach", fmt.Sprintf("Fingerprint.Check = %v before and %v after a ForEach(%#04x) whose callback returned an error at its last visit (RFC verdict %v): %x", err, err3, uint16(a.Type), want, clip(raw))
+		}
+	}
 	switch {
 	case err == nil:
 		return "pass", "", ""
